@@ -40,7 +40,10 @@ def determinism(argv):
             print("HARNESS-ERROR determinism: %s differs in-process at run indices %s" % (check_id, k[:10]))
             bad += 1
             continue
-        for hs in ("1", "987654"):
+        # the reference is computed in a fresh interpreter too: this process has run the other checks before, and
+        # the seams they installed (more instrumented modules) are not part of a check's own process
+        a = None
+        for hs in ("0", "1", "987654"):
             env_ = dict(os.environ)
             env_["PYTHONHASHSEED"] = hs
             env_["VERIF_NO_REEXEC"] = "1"
@@ -52,11 +55,18 @@ def determinism(argv):
                 print("HARNESS-ERROR determinism: %s fresh interpreter failed: %s" % (check_id, p.stderr.decode()[-400:]))
                 bad += 1
                 break
+            if a is None:
+                a = c
+                if len(a) != len(b):
+                    print("HARNESS-ERROR determinism: %s fresh interpreter ran %d executions, this process %d" % (check_id, len(a), len(b)))
+                    bad += 1
+                    break
+                continue
             if c != a:
                 k = [i for i in range(n) if a[i] != c[i]]
                 print("HARNESS-ERROR determinism: %s differs under PYTHONHASHSEED=%s at run indices %s" % (check_id, hs, k[:10]))
                 bad += 1
                 break
         else:
-            print("determinism ok: %s  %d runs x (2 in-process + 2 fresh interpreters)" % (check_id, n))
+            print("determinism ok: %s  %d runs x (2 in-process + 3 fresh interpreters under PYTHONHASHSEED 0, 1, 987654)" % (check_id, n))
     return 2 if bad else 0
